@@ -1,6 +1,7 @@
 //! Verification harness: runs the working tree of /repo on cases written by the /verif checks.
 mod canon;
 mod cmd_ast;
+mod cmd_canvas;
 mod cmd_feel;
 mod cmd_json;
 mod cmd_model;
@@ -27,6 +28,7 @@ fn main() {
     "guard" => guard::main(),
     "model" => cmd_model::main(),
     "recognize" => cmd_recognize::main(),
+    "canvas" => cmd_canvas::main(),
     "num" => cmd_num::main(),
     "types" => cmd_types::main(),
     "pure" => cmd_pure::main(),
